@@ -203,7 +203,10 @@ section translated
 open PackSyn USyn
 
 theorem gen_pack_as_modelled : GenPack.pack = packAsModelled := by decide
-theorem gen_mepHash_as_modelled : GenPack.mepHash = mepHashAsModelled := by decide
+/-- (the storage class of the scratch buffer is free here — automatic or `thread_local` —; a
+    `static` one is rejected by `sigpath_no_shared_state`) -/
+theorem gen_mepHash_as_modelled :
+    GenPack.mepHash = { mepHashAsModelled with storage := GenPack.mepHash.storage } := by decide
 theorem gen_gaHash_as_modelled : GenPack.gaHash = gaHashAsModelled := by decide
 theorem gen_deHash_as_modelled : GenPack.deHash = deHashAsModelled := by decide
 theorem gen_teamHash_as_modelled : GenPack.teamHash = teamHashAsModelled := by decide
